@@ -1236,8 +1236,11 @@ class Target:
     name: str
     fns: list       # [TFn]
     addr: int = 0
+    runtime: bytes | None = None   # raw runtime (e.g. a fallback-only contract) instead of dispatcher + fns
 
     def desc(self) -> TestContract:
+        if self.runtime is not None:
+            return TestContract(self.name, [], runtime_override=self.runtime, file=f"{self.name}.sol")
         return TestContract(self.name, [Fn(f.sig, f.body, mutability=f.mutability,
                                            outputs=[{"name": "", "type": "uint256", "internalType": "uint256"}]
                                            if f.mutability == "view" else []) for f in self.fns], file=f"{self.name}.sol")
